@@ -535,8 +535,13 @@ def _index_into(
     if indices.count(...) > 1:
         raise IndexError("an index can only have a single ellipsis ('...')")
 
+    # position of an ellipsis that stands for no axis at all
+    empty_ellipsis_pos: int | None = None
+
     if indices.count(...):
         ellipsis_pos = indices.index(...)
+        if ary.ndim - len(indices) + 1 == 0:
+            empty_ellipsis_pos = ellipsis_pos
         indices = (indices[:ellipsis_pos]
                    + (slice(None, None, None),) * (ary.ndim - len(indices) + 1)
                    + indices[ellipsis_pos+1:])
@@ -610,8 +615,13 @@ def _index_into(
                                                             normalized_indices[idx],
                                                             NormalizedSlice),
                                             range(len(normalized_indices)))
-        if any(i_adv_indices[0] < i_basic_idx < i_adv_indices[-1]
-               for i_basic_idx in i_basic_indices):
+        if (any(i_adv_indices[0] < i_basic_idx < i_adv_indices[-1]
+                for i_basic_idx in i_basic_indices)
+                # As in numpy, an ellipsis separates advanced indices even if
+                # it stands for no axis.
+                or (empty_ellipsis_pos is not None
+                    and (i_adv_indices[0] < empty_ellipsis_pos
+                         <= i_adv_indices[-1]))):
             # non contiguous advanced indices
             return AdvancedIndexInNoncontiguousAxes(
                 ary,
